@@ -98,6 +98,12 @@ check("C10",
       "TLA+ spec (QOpt closed-form nearest state + QTomo exact linear estimate) model-checked with TLC; replay of TLC-emitted datasets and exact estimates into all constrained estimators",
       "DESIGN.md §4 C10")
 
+check("C11",
+      "TLC (MC_C11 over QOpt) runs the backtracking projected-gradient machine of optimize() in exact rational arithmetic on the classical fragment (one-qubit state tomography, testers x/y/z, mu = 3/4, gamma = 3/10, data symmetric in x and y so that all iterates stay diagonal and the projection is the simplex projection), four stopping modes: the loss never increases (action property), every iterate is feasible, the accepted step satisfies the Armijo inequality, the run stops exactly when the stopping value is within the threshold, fixed points satisfy first-order optimality over the simplex grid, the closed-form optimum is feasible and no worse than any iterate. Binding: (A) every exact run is replayed on LossMinimizationEstimator + backtracking with the generic and the fast squared-error loss: fx, x, alpha, error_values and the stopping index must equal the exact run; (B) runs recorded over state / POVM / process tomography, both loss families, generic and fast, four stopping modes, 10..1e5 shots and exact data are turned into one trace line per iteration (Armijo at the accepted step, previous step rejected, loss not increased, iterate feasible, stop rule) and validated by TLC against the loop structure (Trace_C11); (C) final estimates: exact data of physical objects are returned, no physical competitor (truth, projected linear estimate, seeded physical points, CVXPY/SCS solution) achieves a lower loss, the CVXPY-backed estimator agrees.",
+      "Trusted: exact iterates only on the classical one-qubit fragment; elsewhere the optimality inequality against competitors; structural booleans of (B) are computed with the loss's own value / gradient (validated by C12).",
+      "TLA+ spec (exact backtracking machine) model-checked with TLC; replay of exact runs; TLC trace validation of recorded optimisation runs",
+      "DESIGN.md §4 C11")
+
 ALL = ["C%02d" % i for i in range(1, 21)]
 
 def main():
